@@ -9,7 +9,8 @@ RULE = ("correspondence: merger on Array<level-1> x level-1 pairs (the arms that
         "documents of either side validated by Sem.mem. non-trivial = history with >=2 distinct documents whose result is a "
         "container; distinct = distinct history")
 ASSUMPTIONS = ["documents rendered canonically",
-               "the general semantic-absorption clause is not a theorem (partial): it is decided by the oracle search only"]
+               "the theorem C09_readd covers every history and every position of d; the run-time part ties the model's "
+               "from_sources / merger to /repo and re-tests the theorem's statement on the implementation's own outputs"]
 
 def run(ctx):
     l1 = vlib.level1()
